@@ -37,7 +37,7 @@ CONSTANTS OGShapes, SCShapes, Pats, OptOuts, Orders, Rels, Dump
 
 AllOGShapes == {"none", "website", "article", "profile", "noTitle", "noType", "noUrl", "noImage"}
 AllSCShapes == {"none", "article", "nested", "unsupported", "inUnsupported"}
-AllPats     == {"P", "A", "E", "R0", "R1", "R2", "Q0", "Q1", "Q2"}
+AllPats     == {"P", "A", "E", "U", "R0", "R1", "R2", "Q0", "Q1", "Q2"}
 AllOptOuts  == {"absent", "true", "other"}
 AllImgs     == {"none", "prop", "object", "representative", "associated", "imageItem"}
 \* rel="author" anchors / links outside any item (the schema.org parser's last resort for the author):
@@ -55,7 +55,8 @@ Sources   == <<"og", "schema", "ie">>                  \* the documented precede
 Origins   == {"og", "schema", "ie", "none"}
 
 (***************************************************************************)
-(* Patterns: P/A/E = every free field present/absent/empty; Rk and Qk      *)
+(* Patterns: P/A/E = every free field present/absent/empty; U = only the   *)
+(* author(s) present; Rk and Qk                                            *)
 (* rotate present/empty/absent over the fields (by index mod 3, resp. by   *)
 (* index div 3), so that the three sources together run through all 27     *)
 (* status triples of every field.                                          *)
@@ -68,6 +69,7 @@ St(pat, name) ==
     CASE pat = "P"  -> "present"
       [] pat = "A"  -> "absent"
       [] pat = "E"  -> "empty"
+      [] pat = "U"  -> IF name \in {"authors", "author"} THEN "present" ELSE "absent"    \* nothing but the author(s)
       [] pat = "R0" -> Rot[(Idx[name] % 3) + 1]
       [] pat = "R1" -> Rot[((Idx[name] + 1) % 3) + 1]
       [] pat = "R2" -> Rot[((Idx[name] + 2) % 3) + 1]
